@@ -132,10 +132,13 @@ def coq_eval_many(scratch: Scratch, sources, timeout=900, jobs=12):
     while idx < len(names) or running:
         while idx < len(names) and len(running) < jobs:
             n = names[idx]
+            outf = open(scratch.dir / f"{n}.out", "w")
             p = subprocess.Popen(
                 ["timeout", str(timeout), "coqc", "-Q", str(COQ), "Tempest", "-w", "-all", f"{n}.v"],
-                cwd=scratch.dir, stdout=subprocess.PIPE, stderr=subprocess.STDOUT, text=True, env=env,
+                cwd=scratch.dir, stdout=outf, stderr=subprocess.STDOUT, text=True, env=env,
             )
+            p._outf = outf
+            p._outpath = scratch.dir / f"{n}.out"
             running.append((idx, p))
             idx += 1
         still = []
@@ -143,7 +146,8 @@ def coq_eval_many(scratch: Scratch, sources, timeout=900, jobs=12):
             if p.poll() is None:
                 still.append((i, p))
             else:
-                results[i] = (p.returncode == 0, p.stdout.read())
+                p._outf.close()
+                results[i] = (p.returncode == 0, p._outpath.read_text())
         running = still
         if running:
             time.sleep(0.05)
